@@ -412,6 +412,9 @@ func (x *Exec) load(st *State, t types.Type, loc string) string {
 		x.frameFacts("H:"+s, loc, x.loadOwner)
 	}
 	x.entryValueFacts("H:"+s, x.get(st, "H:"+s), loc, x.loadOwner, s)
+	if x.c.Int && !x.c.mentionsBound(loc) {
+		x.assumeIntRange(t, sx("select", x.get(st, "H:"+s), loc))
+	}
 	return sx("select", x.get(st, "H:"+s), loc)
 }
 
